@@ -19,7 +19,10 @@ NATIVE_VARIANT = None
 def plan(tier: str, seed: int) -> List[Dict[str, Any]]:
     quick = tier == 'quick'
     n, per = (16, 260) if quick else (64, 6000)
-    return [{'seed': seed, 'shard': i, 'cases': per, 'timeout_s': 1500 if quick else 7200} for i in range(n)]
+    out = [{'seed': seed, 'shard': i, 'cases': per, 'timeout_s': 1500 if quick else 7200} for i in range(n)]
+    for spec in out[3::4]:   # (python -O strips assert statements and sets __debug__ to False)
+        spec['env'] = {'PYTHONOPTIMIZE': '1'}
+    return out
 
 
 def assemble(prog: primgen.Program, version: int, tag: str = 'c02') -> Tuple[str, Any, Any]:
